@@ -113,6 +113,8 @@ type c10Case struct {
 	AltR   []lat1   `json:"alt_real"` // attacker-chosen replacement X-Real-Ip values
 	// Kind 1
 	Addrs []string `json:"addrs"` // IP literals
+	// Kind 3 (c10_parse.go): tokens for net.ParseIP vs the model's parseIP
+	Toks []lat1 `json:"toks,omitempty"`
 }
 
 type c10Req struct {
@@ -333,6 +335,9 @@ func c10Run(ci any) (res Result) {
 	if c.Kind == 2 {
 		return c10RunConcurrent(c)
 	}
+	if c.Kind == 3 {
+		return c10RunParse(c)
+	}
 	opts, nets := c.options()
 	ext := c10Extractor(c.Ext, opts)
 	// the options are applied when the extractor is constructed: what the application does with its option
@@ -455,6 +460,7 @@ func c10Run(ci any) (res Result) {
 			return
 		}
 		seenTok[t] = true
+		c10TableTokens.Add(1)
 		ip := net.ParseIP(t)
 		table = append(table, entry{t, ip})
 		if ip != nil {
@@ -1586,6 +1592,8 @@ func c10Gen(r *rand.Rand, tier string) []any {
 	for i := 0; i < nc; i++ {
 		out = append(out, c10GenConcurrent(r, tier))
 	}
+	// (d) net.ParseIP vs the model's parseIP on every token of the cases above + adversarial families
+	out = append(out, c10GenParse(r, tier, out)...)
 	return out
 }
 
@@ -1594,6 +1602,12 @@ func c10Gen(r *rand.Rand, tier string) []any {
 func c10Shrink(ci any) []any {
 	c := ci.(*c10Case)
 	var out []any
+	if c.Kind == 3 {
+		if n := len(c.Toks); n > 1 {
+			out = append(out, &c10Case{Kind: 3, Toks: c.Toks[:n/2]}, &c10Case{Kind: 3, Toks: c.Toks[n/2:]})
+		}
+		return out
+	}
 	cp := func() *c10Case {
 		d := *c
 		d.Opts = append([]c10Opt(nil), c.Opts...)
@@ -1737,11 +1751,12 @@ func c10Min(a, b int) int {
 func init() {
 	register(&Prop{
 		ID:             "C10",
-		Rule:           "(a) requests: extractor {direct, X-Real-IP, X-Forwarded-For} x all 8 trust-flag combinations x 0-5 (rarely 20/21) extra ranges (CIDR pool incl. ranges inside / straddling the built-in classes, random prefix lengths, 16-byte / mixed-length / non-contiguous IPNets), passed as an ORDERED option list: canonical, only the non-default flags (down to no option at all), ranges before flags, any interleaving, flags given twice with the last value counting, the SAME option 2-4 times with equal and with changing arguments, ranges repeated; the option slice is overwritten after the extractor was constructed x peers (RemoteAddr with ports, brackets, malformed) x X-Forwarded-For lists built as prefix ++ [untrusted or unparsable entry] ++ trusted suffix over 0-4 header lines with spaces (ASCII and Unicode), brackets, garbage, IPv4 / IPv6 / IPv4-mapped literals, plus free-form lists; every case also runs variants that differ only in attacker-controlled input (entries left of the decisive hop, headers of an untrusted peer) and requires the same result; each request goes through Context.RealIP and the extractor directly; a third of the cases continue with 1-12 unrelated requests (own reference reading each) through the same Echo instance and extractor closure and then repeat the base request; a fifth then REPLACE Echo.IPExtractor (mostly by a stricter one: direct, a class switched off, ranges dropped) and serve 1-5 more requests through the same Echo, also through a context acquired and one created by NewContext BEFORE the replacement. (c) concurrency: 30 (thorough 200) cases in which 8-16 goroutines issue a set of 3-12 requests with different chains 1500-4000 times each through ONE extractor value and ONE Echo (extractor calls and ServeHTTP mixed); every single answer must equal the property's reading for its own request. (b) classification tables: for every first octet and every (thorough) or boundary (quick) second octet the trust decision for b0.b1.0.1 and b0.b1.255.254 observed through both header extractors, under all-flags and single-flag configurations; structured IPv6 samples (every first byte x second-byte borders, ::1 neighbourhood, IPv4-mapped); tables around the borders of extra ranges. non-trivial = a request whose result differs from the peer or that ran relational variants, or a table containing both trusted and untrusted addresses; distinct = distinct model op lines",
+		Rule:           "(a) requests: extractor {direct, X-Real-IP, X-Forwarded-For} x all 8 trust-flag combinations x 0-5 (rarely 20/21) extra ranges (CIDR pool incl. ranges inside / straddling the built-in classes, random prefix lengths, 16-byte / mixed-length / non-contiguous IPNets), passed as an ORDERED option list: canonical, only the non-default flags (down to no option at all), ranges before flags, any interleaving, flags given twice with the last value counting, the SAME option 2-4 times with equal and with changing arguments, ranges repeated; the option slice is overwritten after the extractor was constructed x peers (RemoteAddr with ports, brackets, malformed) x X-Forwarded-For lists built as prefix ++ [untrusted or unparsable entry] ++ trusted suffix over 0-4 header lines with spaces (ASCII and Unicode), brackets, garbage, IPv4 / IPv6 / IPv4-mapped literals, plus free-form lists; every case also runs variants that differ only in attacker-controlled input (entries left of the decisive hop, headers of an untrusted peer) and requires the same result; each request goes through Context.RealIP and the extractor directly; a third of the cases continue with 1-12 unrelated requests (own reference reading each) through the same Echo instance and extractor closure and then repeat the base request; a fifth then REPLACE Echo.IPExtractor (mostly by a stricter one: direct, a class switched off, ranges dropped) and serve 1-5 more requests through the same Echo, also through a context acquired and one created by NewContext BEFORE the replacement. (c) concurrency: 30 (thorough 200) cases in which 8-16 goroutines issue a set of 3-12 requests with different chains 1500-4000 times each through ONE extractor value and ONE Echo (extractor calls and ServeHTTP mixed); every single answer must equal the property's reading for its own request. (b) classification tables: for every first octet and every (thorough) or boundary (quick) second octet the trust decision for b0.b1.0.1 and b0.b1.255.254 observed through both header extractors, under all-flags and single-flag configurations; structured IPv6 samples (every first byte x second-byte borders, ::1 neighbourhood, IPv4-mapped); tables around the borders of extra ranges. (d) net.ParseIP against the model's parseIP (EchoModel/C10Parse.lean): token lists (64 per case) holding every text of the cases above that can reach net.ParseIP (peer hosts, raw and normalised X-Forwarded-For entries, X-Real-Ip values, replacement entries, table addresses), a fixed adversarial set (leading zeros, 256, 3/5 fields, dots, signs, hex in IPv4, ::, ::1, 1::, 8 groups + ::, 9 groups, :::, embedded IPv4 in every position, zones, both hex cases, 5-digit groups, empty groups, white space incl. Unicode, non-ASCII digits, NUL), structured families (every decimal field 0..300 per position with/without leading zeros, every count of groups before/after :: with/without embedded IPv4, IP.String of all 256 zero/non-zero group patterns plus uncompressed and non-canonical spellings, inputs of 2000-5000 bytes) and 6000 (thorough 60000) random one/two-byte edits of valid literals; per token the oracle also checks net.ParseIP against netip.ParseAddr, the alphabet of accepted texts and the String round trip; the request cases additionally make the model compare parseIP with every entry of the parse table they ship. non-trivial = a request whose result differs from the peer or that ran relational variants, or a table containing both trusted and untrusted addresses, or a token list with accepted and rejected tokens; distinct = distinct model op lines",
 		New:            func() any { return &c10Case{} },
 		Gen:            c10Gen,
 		Run:            c10Run,
 		Shrink:         c10Shrink,
-		Correspondence: "C10.realIPCtx / C10.trust (lean/EchoModel/C10.lean) vs echo.ExtractIPDirect, ExtractIPFromRealIPHeader, ExtractIPFromXFFHeader through Context.RealIP",
+		Extra:          c10ParseExtra,
+		Correspondence: "C10.realIPCtx / C10.trust (lean/EchoModel/C10.lean) vs echo.ExtractIPDirect, ExtractIPFromRealIPHeader, ExtractIPFromXFFHeader through Context.RealIP; C10.parseIP (lean/EchoModel/C10Parse.lean) vs net.ParseIP",
 	})
 }
